@@ -348,6 +348,7 @@ type H struct {
 	poison      map[string]poisoned     // a value the device of a target refuses every time
 	focusCrash  map[string]int          // target -> number of its proposal invocations cut so far (scripted crash histories)
 	holdSucc    map[string]uint64       // target -> index: proposals of the target above that index are not scheduled yet
+	holdUntil   map[string]func() bool  // "target-index" of a proposal -> it is not scheduled until the predicate holds
 	txR         *txctl.Reconciler
 	propR       *propctl.Reconciler
 	cfgR        *cfgctl.Reconciler
@@ -391,7 +392,7 @@ func hx(s string) string {
 }
 
 func newH(seed int64, hid string, out *bufio.Writer, ntargets int, persistent map[string]bool) *H {
-	h := &H{devs: map[string]*fakes.Device{}, devPos: map[string]int{}, policy: map[string][]codes.Code{}, poison: map[string]poisoned{}, focusCrash: map[string]int{}, holdSucc: map[string]uint64{},
+	h := &H{devs: map[string]*fakes.Device{}, devPos: map[string]int{}, policy: map[string][]codes.Code{}, poison: map[string]poisoned{}, focusCrash: map[string]int{}, holdSucc: map[string]uint64{}, holdUntil: map[string]func() bool{},
 		crash: &crashCtl{budget: -1, race: -1, readFault: -1, writeFault: -1}, r: rand.New(rand.NewSource(seed)), out: out, hid: hid, knownC: map[string]bool{}, lastVerdict: -1,
 		raw: map[configapi.ConfigurationID]_map.Map[string, *configapi.PathValue]{}}
 	h.rs = h.r
@@ -825,6 +826,22 @@ func (h *H) allIDs() []recID {
 func (h *H) held(id recID) bool {
 	if t, ok := h.holdSucc[id.a]; ok && id.kind == "prop" && id.idx > t && h.nesting == 0 {
 		return true
+	}
+	if id.kind == "prop" && h.nesting == 0 {
+		key := fmt.Sprintf("%s-%d", id.a, id.idx)
+		if release, ok := h.holdUntil[key]; ok {
+			if release() {
+				delete(h.holdUntil, key)
+				return false
+			}
+			// only the commit of the proposal is delayed (its linking and validation run: others queue behind them)
+			p, err := h.e.Props.Get(context.Background(), proposal.NewID(configapi.TargetID(id.a), configapi.Index(id.idx)))
+			if err == nil && p.Status.Phases.Validate != nil && p.Status.Phases.Validate.State == configapi.ProposalValidatePhase_VALIDATED &&
+				(p.Status.Phases.Commit == nil || p.Status.Phases.Commit.State == configapi.ProposalCommitPhase_COMMITTING) {
+				return true
+			}
+			return false
+		}
 	}
 	return false
 }
@@ -1386,6 +1403,7 @@ func (h *H) settle(maxPasses int, crashProb int) bool {
 		h.faults = faults && p < 6
 		if p >= 40 {
 			h.holdSucc = map[string]uint64{}
+			h.holdUntil = map[string]func() bool{}
 		}
 		before := h.lastState
 		n0 := h.devTotal()
@@ -1399,7 +1417,7 @@ func (h *H) settle(maxPasses int, crashProb int) bool {
 			}
 			h.reconcile(id, budget)
 		}
-		if h.lastState == before && h.devTotal() == n0 && !h.faults {
+		if h.lastState == before && h.devTotal() == n0 && !h.faults && len(h.holdSucc) == 0 && len(h.holdUntil) == 0 {
 			return true
 		}
 	}
@@ -1746,7 +1764,16 @@ func runScenario(seed int64, n int, out *bufio.Writer, kind string, suffix strin
 		ta, tb := h.targets[0], h.targets[1]
 		h.nbSet([]op{{target: tb, path: env.Pick(r, paths), val: fmt.Sprintf("v%d", r.Intn(1000))}}, false, false)
 		h.nbSet([]op{{target: ta, path: env.Pick(r, paths), val: fmt.Sprintf("v%d", r.Intn(1000))}}, r.Intn(2) == 0, true)
+		serIdx := uint64(h.e.NumTx())
 		h.nbSet([]op{{target: tb, path: env.Pick(r, paths), val: fmt.Sprintf("v%d", r.Intn(1000))}}, false, false)
+		if r.Intn(2) == 0 {
+			// the SERIALIZABLE change is slow on its target: its proposal is left alone until its log successor (which
+			// shares no target with it) has been validated
+			h.holdUntil[fmt.Sprintf("%s-%d", ta, serIdx)] = func() bool {
+				t, err := h.e.Txs.GetByIndex(context.Background(), configapi.Index(serIdx+1))
+				return err == nil && t.Status.State >= configapi.TransactionStatus_VALIDATED
+			}
+		}
 		if r.Intn(2) == 0 {
 			h.nbSet([]op{{target: ta, path: env.Pick(r, paths), val: fmt.Sprintf("v%d", r.Intn(1000))}, {target: tb, path: env.Pick(r, paths), val: fmt.Sprintf("v%d", r.Intn(1000))}}, false, r.Intn(2) == 0)
 		}
